@@ -123,7 +123,17 @@ func (w *W) callValue(s *State, fv Value, args []Value, resultTo ssa.Value, isDe
 		s.onceRan[key] = true
 		return w.callValue(s, args[1], nil, resultTo, isDefer)
 	case "(*sync.Pool).Get":
-		pool := w.load(s, args[0].(PtrV)).(StructV)
+		pp := args[0].(PtrV)
+		if s.poolReuse {
+			key := fmt.Sprintf("%d%v", pp.Obj, pp.Path)
+			if l := s.pools[key]; len(l) > 0 {
+				v := l[len(l)-1]
+				s.pools[key] = l[:len(l)-1]
+				setResult(s, resultTo, v)
+				return true
+			}
+		}
+		pool := w.load(s, pp).(StructV)
 		newFn := pool.F[len(pool.F)-1]
 		if nf, ok := newFn.(FuncV); ok && !nf.Nil {
 			return w.callValue(s, nf, nil, resultTo, isDefer)
@@ -131,6 +141,14 @@ func (w *W) callValue(s *State, fv Value, args []Value, resultTo ssa.Value, isDe
 		setResult(s, resultTo, IfaceV{})
 		return true
 	case "(*sync.Pool).Put":
+		if s.poolReuse {
+			pp := args[0].(PtrV)
+			key := fmt.Sprintf("%d%v", pp.Obj, pp.Path)
+			if s.pools == nil {
+				s.pools = map[string][]Value{}
+			}
+			s.pools[key] = append(append([]Value(nil), s.pools[key]...), args[1])
+		}
 		setResult(s, resultTo, TupleV{})
 		return true
 	}
